@@ -259,20 +259,6 @@ Definition wf_b (c : case) : bool :=
   forallb (fun x => (0 <=? fst x) && ends_with_return (snd x)) (c_scripts c)
   && okwf (final c).
 
-(* ---- known finding K9: a coroutine kills itself and returns in the same
-   resumption (the StopIteration branch forgets the kill mark) ------------- *)
-Fixpoint self_killed (g : gid) (acts : list action) (cur : bool) : bool :=
-  match acts with
-  | [] => cur
-  | AKill g' :: acts => self_killed g acts (if g' =? g then true else cur)
-  | AStart g' :: acts => self_killed g acts (if g' =? g then false else cur)
-  | AState _ :: acts => self_killed g acts cur
-  end.
-Definition k9_step (g : gid) (s : stp) : bool :=
-  match snd s with RReturn _ => self_killed g (fst s) false | RYield _ => false end.
-Definition k9 (sc : scripts) : bool :=
-  existsb (fun x => existsb (k9_step (fst x)) (snd x)) sc.
-
 (* ---- C08 ------------------------------------------------------------------ *)
 Definition C08_case := case.
 Definition holds08_b (c : case) : bool := ok08 (final c).
@@ -284,7 +270,7 @@ Definition C09_case := case.
 Definition holds09_b (c : case) : bool :=
   ok09 (final c) && subz (c_alive c) (sp_held (final c)).
 Definition holds09 (c : case) : Prop := holds09_b c = true.
-Definition known09_b (c : case) : bool := k9 (c_scripts c).
+Definition known09_b (c : case) : bool := false.
 
 Definition bit (b : bool) (n : nat) : nat := if b then n else 0%nat.
 Definition C08_verdict (c : C08_case) : nat :=
